@@ -15,83 +15,94 @@ TRUST = ("independent SMILES reader and reference derivation in vmon/ (share no 
 CHECKS = {
     "C01": dict(
         technique="runtime monitoring: strict independent re-read + valence recount of every decoder output; in-call graph-invariant (M1), writer (M2) and derivation-contract (M3) monitors; RDKit sanitizer on robust-alphabet outputs",
-        text="held on ~0.8M (quick) / ~10M (thorough) decoder executions: all strings up to length 4-5 over four symbol sets under five tables, live / ring-dense / multi-fragment strings under random tables, mutated dataset strings; every output re-read strictly and valence-checked against the table in force. Exploration: says nothing about inputs not generated.",
+        text="held on every decoder execution of the run: all strings up to length 4-5 over four symbol sets under five tables, live / ring-dense / many-fragment strings under random, neighbouring and caller-mutated tables (dict subclasses, huge capacities, '?' anywhere), mutated dataset strings, repeated and flag-variant calls; every output re-read strictly and its valences recounted against the table the API reports. Known finding F1 keyed by mechanism.",
         ref="5 C01"),
     "C02": dict(
         technique="runtime monitoring with a reference model: every decoder call is compared at molecule level with an independent executable rendering of the documented derivation",
-        text="the quantifier's own bounded part is enumerated (all strings up to length 4-5 over four symbol sets covering every rule and state, five tables), live / mutated / index-sensitive strings beyond; atoms, bonds, orders, stereo marks, written neighbour order and acceptance compared with the reference derivation. Exploration with an exhaustive small scope.",
+        text="the quantifier's own bounded part is enumerated (all strings up to length 4-5 over four symbol sets covering every rule and state, five tables), live / mutated / index-sensitive strings beyond, soak phase after 140k distinct symbols; atoms, bonds, orders, stereo marks and written neighbour order compared with the reference derivation; other flag combinations must return the same text. Known finding F1.",
         ref="5 C02"),
     "C03": dict(
         technique="runtime monitoring: round trip through the real encoder and decoder, both sides read by an independent SMILES reader and compared atom by atom; M1 recount of the encoder's graph, M2 writer monitor",
-        text="held on ~40k (quick) / ~0.6M (thorough) spellings of random molecules under random tables, macrocycles / long branches with 1-3 index symbols, dataset molecules in original and re-spelled form.",
+        text="held on every round trip of the run: DFS and random-spanning-tree spellings of random molecules (digits after branches, all-parenthesised neighbours, zero-padded numbers, %nn labels) under random tables, aromatic systems with their aromatic assignment compared, macrocycles / long branches with 1-3 index symbols (spans below 16^3), every ring/branch symbol family, many-fragment molecules, dataset molecules in original and re-spelled form; both sides read by the independent reader.",
         ref="5 C03"),
     "C04": dict(
         technique="runtime monitoring: neighbour-order parity oracle over independently read input and output (no chemistry), stereo-dense workload",
-        text="held on ~25k (quick) / ~0.5M (thorough) spellings with ~80k chiral centres (ring-opening, ring-closing, both, first atom, with H) and ~130k stereo marks incl. either end of ring closures.",
+        text="held on every stereo round trip of the run: chiral centres (ring-opening, ring-closing, both, first atom, with H, hypervalent with 5-6 neighbours) and double-bond marks incl. either end of ring closures, judged by neighbour-order parity on independently read input and output, under all encoder flag combinations and repeated translation.",
         ref="5 C04"),
     "C05": dict(
         technique="runtime monitoring: exact perfect-matching oracle on every call of the matching routine (M4) and on generator-known pi-demand sets; order-independence over 4-8 spellings",
-        text="four oracles from strongest to weakest input class (matching routine, standard kinds with completeness, anchored charged/radical kinds, exotic kinds); fullerene and other cubic cages; known findings F3, F4 keyed by mechanism.",
+        text="four oracles from strongest to weakest input class (matching routine on every call, standard kinds with completeness, anchored charged/radical kinds, exotic kinds by locality); fullerene and other cubic cages, poly-aryl and linked systems, isotope-labelled atoms, multi-fragment and large (several hundred pi-atoms) inputs; order independence over 3-8 spellings. Known findings F3 (with rate ceiling) and F4 keyed by mechanism.",
         ref="5 C05"),
     "C06": dict(
         technique="runtime monitoring: independent valence count against the table reported by the API; molecules generated around capacity; table switched between calls with cache probes (M5)",
-        text="held on ~13k (quick) / ~0.25M (thorough) (table, molecule) pairs with margins -3..+3, charged / explicit-H / '?'-only atoms and kekulizable aromatic systems; strict verdict re-judged after a table switch.",
+        text="held on every (table, molecule) pair of the run: margins -3..+3 around the capacity, charged / explicit-H / '?'-only atoms, kekulizable aromatic systems; tables set the hostile way (caller dict types, later mutation, rejected update after set, presets by name); strict verdict re-judged after a table switch and against the table the API reports.",
         ref="5 C06"),
     "C07": dict(
         technique="runtime monitoring: alphabet content against a model, every symbol decoded alone, random strings over the alphabet judged by the C01 oracle, tables switched between calls",
-        text="held on ~900 (quick) / ~20k (thorough) accepted tables incl. multi-digit and zero-containing charges, capacities 0-20.",
+        text="held on every accepted table of the run incl. multi-digit and zero-containing charges, capacities 0-20 and 'no limit' integers up to 10^30, '?' in any position; alphabet content against a model, every symbol decoded alone, random strings over the alphabet judged by the C01 oracle, neighbouring tables and rejected updates between reads.",
         ref="5 C07"),
     "C08": dict(
         technique="runtime monitoring: exception tap at the API boundary (M9), sys.monitoring logical-step bound (M7), global-table probe (M5); atheris coverage-guided fuzzing in the thorough tier",
-        text="held on ~130k (quick) / ~2.5M + 2.4M fuzzed (thorough) hostile decoder calls under all four flag combinations; termination decided in line events, never wall clock; known finding F5.",
+        text="held on every hostile decoder call of the run under all four flag combinations plus an atheris campaign; termination decided in line events (sys.monitoring), never wall clock - a fuzz input on which the fuzzing process stalls is handed back and judged under the step bound. Known finding F5.",
         ref="5 C08"),
     "C09": dict(
         technique="runtime monitoring: exception tap at the API boundary (M9), sys.monitoring logical-step bound (M7), matching judge (M4) for the F3 mechanism key; atheris in the thorough tier",
-        text="held on ~90k (quick) / ~2.5M + 2.4M fuzzed (thorough) hostile encoder calls under all four flag combinations; known findings F9, F3.",
+        text="held on every hostile encoder call of the run under all four flag combinations (incl. large aromatic inputs of several hundred pi-atoms) plus an atheris campaign; same termination rule as C08. Known findings F9, F3.",
         ref="5 C09"),
     "C10": dict(
         technique="runtime monitoring: emitted tokens judged by the reference symbol grammar, decode + re-encode fixpoint, paired spellings from two PRNG streams",
-        text="held on ~10k (quick) / ~0.2M (thorough) accepted SMILES with extreme atoms (118 elements, charges to +-101, isotopes to 1000, H to 9) and index lengths 1-3.",
+        text="held on every accepted SMILES of the run: extreme atoms (118 elements, charges to +-101, isotopes to 1000, H to 9, zero-padded numbers), index lengths 1-3, every symbol family, aromatic systems under tight tables, first sight of a symbol under another table; emitted tokens judged by the reference grammar, decode + re-encode fixpoint.",
         ref="5 C10"),
     "C11": dict(
         technique="runtime monitoring: API histories; each final translation compared with the reference derivation under the reported table and with a fresh interpreter forked from an untouched zygote, hash seeds 0-4",
-        text="held on ~500 (quick) / ~11k (thorough) histories of 5-60 calls with warm caches, rejected updates and caller-side mutation; 9 probes each.",
+        text="held on every history of the run (5-60 calls: warm caches, table walks, rejected updates incl. non-string keys, caller-side mutation, utility calls); 9 probes each compared with the reference derivation under the reported table and with a fresh interpreter forked from an untouched zygote, hash seeds 0-4; soak phase.",
         ref="5 C11"),
     "C12": dict(
         technique="runtime monitoring: history checker against a dict/set model of the configuration API; every object crossing the boundary is really mutated; atomicity observed before/after each rejected update",
-        text="held on ~1k (quick) / ~24k (thorough) histories; known finding F12 keyed by the model's shadow of the caller's own mutations.",
+        text="held on every history of the run against a dict/set model (types compared, not only values); invalid updates of every documented kind incl. the get-tweak-set form (table in force with one entry made invalid), fresh probes after each rejection; known finding F12 keyed by the model's shadow of the caller's own mutations.",
         ref="5 C12"),
     "C13": dict(
         technique="runtime monitoring: differential outcome check of [nop] placements (forced into every index position, after every branch/ring symbol, fragment edges, random, exhaustive single insertions) with a tokenizer tap (M6)",
-        text="held on ~23k (quick) / ~0.5M (thorough) variants of ~2.4k / 48k base strings incl. raising ones, plus padding round trips.",
+        text="held on every [nop] variant of the run (forced into every index position, after every branch/ring symbol, fragment edges, random, exhaustive single insertions, runs of 300-5000) of base strings incl. raising ones, under all flag combinations, after a 140k-symbol soak, plus padding round trips through the encoding utilities with pipeline-style vocabularies.",
         ref="5 C13"),
     "C14": dict(
         technique="runtime monitoring: utilities compared with the harness's own tokenisation on random well-formed strings; tokenizer tap (M6) on the decoder",
-        text="held on ~28k (quick) / ~0.7M (thorough) strings / collections incl. Unicode, control characters, empty bodies.",
+        text="held on every string / collection of the run incl. Unicode, control characters, empty bodies, str-subclass elements, sets / dict keys / iterators as collections, and the same strings again after they went through the encoding utilities and the decoder; decoder token tap and cited tokens.",
         ref="5 C14"),
     "C15": dict(
         technique="runtime monitoring: 10-line reference model of the encodings, inverse and batch laws, error paths",
-        text="held on ~5.6k (quick) / 160k (thorough) (vocabulary, string, pad, enc_type) cases.",
+        text="held on every (vocabulary, string, pad, enc_type) case of the run: shuffled insertion order, one vocabulary object changed in place, defaults and keyword forms, batch laws, error paths (missing symbol, bad enc_type, ragged vector, label outside 0..n-1).",
         ref="5 C15"),
     "C16": dict(
         technique="runtime monitoring, exhaustive over the stated finite space: all n < 65536, all 21^3 symbol triples, every Q < 4096 through crafted ring/branch strings and macrocycle / long-branch SMILES",
-        text="exhaustive for 0 <= n < 16^4 and all triples at helper level and for every Q < 16^3 at API level (decoder), sampled ring sizes / branch lengths up to 4097 at API level (encoder).",
+        text="exhaustive for 0 <= n < 16^4 and all 21^3 triples at helper level and for every Q < 16^3 at API level (decoder ring sizes and branch lengths, 1-3 index symbols), sampled n up to 16^70 around every power of 16 and 2, truncated reads, index symbols straddling a branch end judged by the reference derivation, ring sizes / branch lengths up to 4097 at API level (encoder).",
         ref="5 C16"),
     "C17": dict(
         technique="runtime monitoring: attribution entries checked against the output text, the input tokenisation and the reference derivation's frame stack",
-        text="held on ~5.6k decoder + 3.2k encoder inputs (quick), ~130k + 80k (thorough), multi-fragment, [nop], nested branches, fragments ending inside index reads.",
+        text="held on every decoder and encoder input of the run: multi-fragment (many fragments), [nop], nested branches, fragments ending inside index reads, compatible=True; entries checked against the output text, the input tokenisation and the reference derivation's frame stack (exact attribution lists).",
         ref="5 C17"),
     "C18": dict(
         technique="runtime monitoring: differential check against the harness's own moderniser; reachedness of legacy symbols decided by the reference derivation",
-        text="held on ~8k (quick) / ~190k (thorough) mixed strings covering all 21 legacy branch/ring forms and ~50 legacy atom spellings.",
+        text="held on every mixed string of the run covering all 21 legacy branch/ring forms and the legacy atom spellings, six tables, empty fragments, caller vocabularies built on the library's alphabet; differential against the harness's own moderniser, reachedness decided by the reference derivation of the raw string.",
         ref="5 C18"),
     "C19": dict(
         technique="runtime monitoring under thread stress: barrier start, 1 us switch interval, sys.monitoring yield injection; every result compared with the same call alone in a forked fresh interpreter; overlaps and in-repo thread switches measured",
-        text="held on ~20k (quick) / ~200k (thorough) concurrent calls in rounds of 2-16 threads with ~0.8M observed thread switches inside repository frames (quick).",
+        text="held on every concurrent call of the run: rounds of 2-16 threads, barrier start, 1 us switch interval, yield injection focused on one source file at a time, novel symbols, ~37 never-seen inputs per round started by all threads at once or staggered; each result compared with the same call alone in a forked fresh interpreter; overlaps and in-repo thread switches measured (floors).",
         ref="5 C19"),
 }
 
 PENDING = {}
+
+
+def numbers(pid):
+    """What the last committed quick run observed (from the evidence file the check itself wrote)."""
+    try:
+        e = json.load(open(os.path.join(ROOT, "evidence", pid + ".json")))
+        c = e["coverage"]
+        return " Last committed %s run (seed %s): %d executions, %d distinct non-trivial." % (
+            e.get("tier", "?"), e.get("seed", "?"), c["evaluations"], c["distinct_nontrivial"])
+    except Exception:
+        return ""
 
 
 def main():
@@ -109,7 +120,7 @@ def main():
                 "evidence_file": "evidence/%s.json" % pid,
                 "replay_cmd_template": "./check %s --replay {path}" % pid,
                 "engine": "vmon",
-                "level_claimed": {"category": c.get("category", "exploration"), "text": c["text"],
+                "level_claimed": {"category": c.get("category", "exploration"), "text": c["text"] + numbers(pid),
                                   "design_ref": "DESIGN.md section " + c["ref"]},
                 "level_note": c.get("note", TRUST),
                 "technique": c["technique"],
